@@ -17,6 +17,8 @@ pub struct OracleState {
     memo: HashMap<u64, Option<Vec<Diag>>>,
     pub refs_computed: u64,
     pub refs_memo_hits: u64,
+    /// memo of full reference outputs (C08 needs the lints, not only the diagnostics)
+    full_memo: HashMap<u64, std::rc::Rc<reference::RefOut>>,
     pub sentinel: Option<i64>,
     /// C10: everything the seam has seen the simulated code do to the file system / network
     pub fs_log: Vec<String>,
@@ -702,7 +704,143 @@ pub fn on_send(sim: &mut Sim, json: &Value) {
     }
 }
 
-pub fn on_receive(_sim: &mut Sim, _msg: &Value) {}
+pub fn on_receive(sim: &mut Sim, msg: &Value) {
+    if sim.job.prop == "C08" && msg.get("method").is_none() && msg.get("id").is_some() {
+        let Some(resp) = sim.client.responses.last().cloned() else { return };
+        if Some(resp.id) == msg["id"].as_i64() && resp.method == "textDocument/codeAction" && Some(resp.id) != sim.oracle_state.sentinel {
+            check_code_actions(sim, &resp);
+        }
+    }
+}
+
+// ------------------------------------------------------------------ C08: quick fixes land on the flagged text
+
+/// Apply a TextEdit the way an editor does: replace the UTF-16 range in the buffer.
+fn apply_text_edit(text: &[char], edit: &Value) -> Option<String> {
+    let r = &edit["range"];
+    let a = reference::pos_to_index(text, r["start"]["line"].as_u64()? as u32, r["start"]["character"].as_u64()? as u32)?;
+    let b = reference::pos_to_index(text, r["end"]["line"].as_u64()? as u32, r["end"]["character"].as_u64()? as u32)?;
+    if a > b {
+        return None;
+    }
+    let mut out: String = text[..a].iter().collect();
+    out.push_str(edit["newText"].as_str()?);
+    out.extend(text[b..].iter());
+    Some(out)
+}
+
+fn check_code_actions(sim: &mut Sim, resp: &super::client::Response) {
+    use harper_core::linting::Suggestion;
+    let uri = resp.params["textDocument"]["uri"].as_str().unwrap_or("").to_string();
+    let Some(doc) = sim.client.doc(&uri).cloned() else { return };
+    if !doc.open || !doc.known_to_server {
+        return;
+    }
+    let (line, ch) = (resp.params["range"]["start"]["line"].as_u64().unwrap_or(0) as u32, resp.params["range"]["start"]["character"].as_u64().unwrap_or(0) as u32);
+    let settings = sim.client.settings.clone();
+    let (user, file) = current_words(sim, &doc);
+    let key = fnv1a(serde_json::to_string(&json!([doc.text, doc.lang, settings, user, file])).unwrap().as_bytes());
+    let r = match sim.oracle_state.full_memo.get(&key) {
+        Some(r) => r.clone(),
+        None => {
+            let Reference::Lints(r) = reference::lints_for(&doc.text, &doc.lang, &settings, &user, &file) else { return };
+            let r: std::rc::Rc<reference::RefOut> = std::rc::Rc::from(r);
+            sim.oracle_state.full_memo.insert(key, r.clone());
+            r
+        }
+    };
+    let src = &r.source;
+    let Some(idx) = reference::pos_to_index(src, line, ch) else { return };
+    let actions = resp.result.as_array().cloned().unwrap_or_default();
+    sim.res.count("c08_positions_probed", 1);
+    if src[..idx.min(src.len())].iter().any(|c| c.len_utf16() == 2) {
+        sim.res.count("c08_probe_after_astral", 1);
+    }
+    if !src[idx.min(src.len())..].contains(&'\n') && src.contains(&'\n') {
+        sim.res.count("c08_probe_on_last_line_without_newline", 1);
+    }
+    if src.contains(&'\r') {
+        sim.res.count("c08_probe_crlf", 1);
+    }
+    let mut fail = |sim: &mut Sim, class: &str, detail: String| {
+        sim.res.violate(Violation {
+            property: "C08".into(),
+            oracle: "C08.code_actions_at_position".into(),
+            class: class.into(),
+            detail: format!("{uri} ({}) codeAction at {line}:{ch} (char {idx} of {}): {detail}", doc.lang, src.len()),
+            facts: json!({"class": class, "last_line": !src[idx.min(src.len())..].contains(&'\n'), "trailing_newline": src.last() == Some(&'\n')}),
+        });
+    };
+    for l in r.lints.iter().filter(|l| l.span.start <= idx && idx < l.span.end) {
+        sim.res.count("c08_lint_position_pairs", 1);
+        let (sl, sc) = reference::index_to_pos(src, l.span.start);
+        let (el, ec) = reference::index_to_pos(src, l.span.end);
+        let want_range = json!({"start":{"line":sl,"character":sc},"end":{"line":el,"character":ec}});
+        // the ignore command must carry this very lint
+        let want_lint = serde_json::to_value(l).unwrap();
+        let has_ignore = actions.iter().any(|a| a["command"].as_str() == Some("HarperIgnoreLint") && a["arguments"][1] == want_lint && a["arguments"][0].as_str() == Some(uri.as_str()));
+        if !has_ignore {
+            fail(sim, "lint_not_offered", format!("the position lies inside the lint {:?} '{}' but no HarperIgnoreLint command for it was returned ({} actions returned)", l.span, l.message, actions.len()));
+            continue;
+        }
+        for sug in &l.suggestions {
+            sim.res.count("c08_suggestions_checked", 1);
+            // what applying the suggestion to the lint's character span yields
+            let mut want: Vec<char> = src[..l.span.start].to_vec();
+            match sug {
+                Suggestion::ReplaceWith(c) => want.extend(c.iter()),
+                Suggestion::Remove => {}
+                Suggestion::InsertAfter(c) => {
+                    want.extend(src[l.span.start..l.span.end].iter());
+                    want.extend(c.iter());
+                }
+            }
+            want.extend(src[l.span.end..].iter());
+            let want: String = want.into_iter().collect();
+            let mut found = false;
+            let mut near: Option<String> = None;
+            for a in &actions {
+                let Some(edits) = a["edit"]["changes"][uri.as_str()].as_array() else { continue };
+                if edits.len() != 1 {
+                    continue;
+                }
+                if edits[0]["range"] != want_range {
+                    continue;
+                }
+                match apply_text_edit(src, &edits[0]) {
+                    Some(got) if got == want => {
+                        found = true;
+                        break;
+                    }
+                    Some(got) => near = Some(got),
+                    None => near = Some("(edit range is not a valid position pair)".into()),
+                }
+            }
+            if !found {
+                let class = if near.is_some() { "edit_differs" } else { "fix_not_offered" };
+                fail(
+                    sim,
+                    class,
+                    format!(
+                        "no returned quick fix for lint {:?} '{}' yields what applying suggestion {:?} to the span yields; nearest result: {:?}",
+                        l.span,
+                        l.message,
+                        sug.to_string(),
+                        near.map(|n| n.chars().take(120).collect::<String>())
+                    ),
+                );
+            }
+        }
+        if l.lint_kind.is_spelling() {
+            let word: String = src[l.span.start..l.span.end].iter().collect();
+            for cmd in ["HarperAddToUserDict", "HarperAddToFileDict"] {
+                if !actions.iter().any(|a| a["command"].as_str() == Some(cmd) && a["arguments"][0].as_str() == Some(word.as_str())) {
+                    fail(sim, "dict_command_differs", format!("spelling lint on '{word}' but no {cmd} command carrying exactly that word"));
+                }
+            }
+        }
+    }
+}
 
 pub fn at_quiescence(sim: &mut Sim, final_: bool) {
     // oracles over files do not need a live server
@@ -723,7 +861,7 @@ pub fn at_quiescence(sim: &mut Sim, final_: bool) {
         return;
     }
     match sim.job.prop.as_str() {
-        "C09" => check_last_word(sim, final_),
+        "C09" | "C08" => check_last_word(sim, final_),
         "C07" => {
             check_last_word(sim, final_);
             check_dict_files(sim, if final_ { "at the end" } else { "at a quiescent point" });
